@@ -26,6 +26,14 @@ check("C09", "stateless model checking of the real context under a controlled sc
       "Every multiset of 2-4 goroutine programs over {RunCode, ModuleInit, ResolveAndCompile, Close, wait-for-Done} is run on the real stdlib.context under a cooperative scheduler whose scheduling points are generated from the current source (every lifecycle statement, every sync operation, inside the running Python code); ALL schedules within the preemption bound (quick: 2; thorough: up to 4) are executed and a monitor checks: no panic, no deadlock, Close returns only after admitted executions finished and callbacks ran once, Done not early, no admission after callbacks, requests after Close fail with an ordinary error.",
       "sequentially consistent interleavings only; memory-model effects are seen only by the auxiliary free-running -race pass of the same bodies (a sampler, reported separately as non-deciding); the vsync shim models sync.Mutex/WaitGroup/Once",
       "DESIGN.md section 4 C09", engine="explorer")
+check("C13", "exhaustive enumeration of every sequence type x length x (start, stop, step) / index over a closed index alphabet against a first-principles slice model, via Go API and compiled source",
+      "str, list, tuple, range and bytes of every length 0..4 (thorough 0..6) x every (start, stop, step) and every index over {None, -9..9, +-(2^63-1), +-2^63, +-2^64}: slicing, item get/set/del, list slice assignment (all replacement kinds) and deletion, concatenation, repetition, len, membership, comparisons, iteration; result, exception type, operand-not-corrupted and result-not-aliased are compared with a Go-slice model of Python's sequence semantics.",
+      "elements are small distinct ints / code points; operations a type does not provide at all are recorded one finding per (type, operation); model cross-checked against CPython 3.11 on 632k cases during development",
+      "DESIGN.md section 4 C13; reports/REPORT-C13.md")
+check("C14", "exhaustive enumeration of all strings up to a length bound over a mixed-width alphabet x every string operation and argument tuple against a []rune reference model; repr/eval round trip",
+      "Every string of length <= 3 (thorough <= 5) over {a, b, U+E9, U+20AC, U+1F600, quote, double quote, backslash, newline, NUL, space} plus boundary code points x len/index/slice/iteration/in/find/count/startswith/endswith/split/join/strip/replace/upper/lower/compare/repeat/concat/ord/chr with every small argument tuple, through the Go API and compiled source, compared with a []rune model; eval(repr(x)) == x for every such string, bytes, lattice ints and floats and nested tuples/lists.",
+      "strings longer than 5, surrogates/invalid UTF-8 and % formatting are not covered; float repr text is judged by C15; model cross-checked against CPython 3.11 on 11M expressions during development",
+      "DESIGN.md section 4 C14; reports/REPORT-C14.md")
 check("C18", "stateless exploration of the compiler's internal nondeterminism (every controlled map-iteration order; all interleavings of two concurrent compilations at function-entry granularity) with a differential oracle",
       "For a corpus of generated scope-heavy programs plus every .py file in the repository: every iteration order of every range-over-map in symtable/compile/vm within the deviation bound, all ordered pairs compiled back to back, all interleavings of two concurrent py.Compile calls within the preemption bound, and a before/after snapshot of every package-level variable of parser/symtable/compile/ast; every code object (recursive structural dump) must equal the first compilation.",
       "orders for maps with more than 4 keys are reversal/rotations/adjacent transpositions, not all n!; interleavings are sequentially consistent at function-entry granularity; the -race pass (16 goroutines) is auxiliary and non-deciding",
